@@ -27,12 +27,22 @@ func opStart(w *world.World) {
 	w.OpBound[t.Name] = w.PoolSize("pl")
 }
 
+// poolCount: the IPs held under the pool's prefix, in the tables or in the store, whichever shows more (an object the tables
+// have lost sight of still is an IP of the pool).
 func poolCount(w *world.World) int {
-	n := 0
+	n, m := 0, 0
 	for _, s := range w.MemDump() {
 		if s.Alloc && strings.HasPrefix(s.Key, "pool__pl_") {
 			n++
 		}
+	}
+	for _, s := range w.StoreDump() {
+		if strings.HasPrefix(s.Key, "pool__pl_") {
+			m++
+		}
+	}
+	if m > n {
+		return m
 	}
 	return n
 }
@@ -172,6 +182,20 @@ func c07Scenarios(tier string) []*Scenario {
 				{"sched-y", schedOps(w, y.Key(), 1)}}
 		}))
 	}
+	rl := mk("size1/reload-vs-two-apps", func(w *world.World) []Thread {
+		// the configuration is loaded again (one more address) while pods of two deployments sharing the full-to-be pool are filtered
+		setup(w)
+		w.SetPoolObj("pl", 1)
+		x, y := poolPod("d", 0), poolPod("e", 0)
+		w.CreatePod(x)
+		w.CreatePod(y)
+		return []Thread{
+			{"reload", func() { opStart(w); w.ConfigMap = cfgOnePool(4, false).Pools; _ = w.Reload() }},
+			{"sched-x", schedOps(w, x.Key(), 1)}, {"sched-y", schedOps(w, y.Key(), 1)}}
+	})
+	// (one preemption less, one deviation of the table iteration order instead: which free address the second pod is offered)
+	rl.Bounds = map[string]int{"preempt": b["preempt"] - 1, "rot": 1, "fault": b["fault"]}
+	out = append(out, rl)
 	out = append(out, mk("grow1to2/pool-update-with-preallocation", func(w *world.World) []Thread {
 		setup(w)
 		w.SetPoolObj("pl", 1)
